@@ -7,7 +7,7 @@ from collections import Counter
 from hypothesis import strategies as st
 
 from vf import drive, env, gen
-from vf.codec_ref import INTERNAL_MAX, ref_verdict
+from vf.codec_ref import INTERNAL_MAX, plain_int, ref_verdict
 from vf.model import RefController
 from vf.runner import Outcome, fail
 
@@ -156,7 +156,7 @@ def run_case(case: dict) -> Outcome:
                 info["parked"] = True
             if op[0] == "rx":
                 parts = op[1].split(";")
-                if len(parts) >= 6 and parts[2] == "3" and parts[4].isdigit():
+                if len(parts) >= 6 and parts[2] == "3" and plain_int(parts[4]):
                     info["itypes"].add(int(parts[4]))
             kind = "send" if op[0] == "send" else drive._msgkind(shadow.rx(op[1]).fields if shadow else RefController(old).rx(op[1]).fields)
             if d_old != d_new:
